@@ -63,7 +63,8 @@ type Resolution struct {
 }
 
 type Budgets struct {
-	Ticks uint64 `json:"ticks"`
+	Ticks uint64 `json:"ticks"` // total simulated time of the call (backstop)
+	Frame uint64 `json:"frame"` // loop iterations within one function activation (hang detector)
 	Depth int    `json:"depth"`
 	Bytes uint64 `json:"bytes"`
 }
@@ -113,6 +114,8 @@ type Outcome struct {
 	Full    string `json:"full,omitempty"`
 	Ticks   uint64 `json:"ticks"`
 	Depth   int    `json:"depth"`
+	Frame   uint64 `json:"frame,omitempty"`    // largest loop-iteration count of one function activation
+	FrameFn string `json:"frame_fn,omitempty"`
 	Bytes   uint64 `json:"bytes,omitempty"`
 	Trace   string `json:"trace,omitempty"` // rolling hash of every simulator event of the call
 	// map-range statistics
